@@ -79,3 +79,60 @@ pub fn run_action<'info>(
     };
     Ok(report)
 }
+
+/// Like [`run_action`], with the swap pricing kind chosen by the caller
+/// (`0` swap, `1` deposit, `2` withdrawal, `3` shift) instead of the action's own default.
+#[allow(clippy::too_many_arguments)]
+pub fn run_action_with_kind<'info>(
+    loader: &AccountLoader<'info, Market>,
+    store: &AccountLoader<'info, Store>,
+    market_token: &Account<'info, Mint>,
+    token_program: &AccountInfo<'info>,
+    receiver_or_vault: &AccountInfo<'info>,
+    event_authority: &AccountInfo<'info>,
+    prices: Prices<u128>,
+    action: Action,
+    kind: u8,
+) -> Result<String> {
+    let kind = match kind {
+        0 => SwapPricingKind::Swap,
+        1 => SwapPricingKind::Deposit,
+        2 => SwapPricingKind::Withdrawal,
+        _ => SwapPricingKind::Shift,
+    };
+    let emitter = EventEmitter::new(event_authority, 255);
+    let base = RevertibleMarket::new(loader, None, emitter)?;
+    let market =
+        RevertibleLiquidityMarket::from_revertible_market(base, market_token, token_program, store)?
+            .with_swap_pricing_kind(kind);
+    let report = match action {
+        Action::Deposit(long, short) => {
+            let mut market = market.enable_mint(receiver_or_vault);
+            let report = market
+                .deposit(long, short, prices)
+                .and_then(|d| d.execute())
+                .map_err(ModelError::from)?;
+            market.commit();
+            format!("{report:?}")
+        }
+        Action::Withdraw(amount) => {
+            let mut market = market.enable_burn(receiver_or_vault);
+            let report = market
+                .withdraw(amount, prices)
+                .and_then(|w| w.execute())
+                .map_err(ModelError::from)?;
+            market.commit();
+            format!("{report:?}")
+        }
+        Action::Swap(is_token_in_long, amount) => {
+            let mut market = market;
+            let report = market
+                .swap(is_token_in_long, amount, prices)
+                .and_then(|s| s.execute())
+                .map_err(ModelError::from)?;
+            market.commit();
+            format!("{report:?}")
+        }
+    };
+    Ok(report)
+}
